@@ -27,7 +27,6 @@ Proof. apply Z.eqb_eq. Qed.
 Section KeyMelody.
   Variable min_note note_range : Z.
   Variable dists : list Z.
-  Variable bits : Z.
   Hypothesis min_note_nonneg : 0 <= min_note.
   Hypothesis dists_pos : Forall (fun d => 1 <= d) dists.
 
@@ -158,6 +157,8 @@ Section KeyMelody.
       destruct ((min_note <=? min_note + l) && (min_note + l <? min_note + note_range)) eqn:?; [|lia].
       now rewrite orb_true_r.
   Qed.
+
+  Variable bits : Z.
 
   Theorem keymelody_generation_total ls : forall evs,
     Forall (fun l => 0 <= l < km_num_classes note_range dists) ls -> Forall valid evs ->
